@@ -30,6 +30,7 @@ type Obligation struct {
 	vc       *VC
 	Result   *SolverResult
 	Abstract bool // proof leans on a havocked step (informational)
+	Tagged   bool // requires-clause explicitly tagged with the property under check
 }
 
 type VC struct {
